@@ -49,5 +49,6 @@ pub proof fn contract_c09_2_parameter_subset(p: L_P, list: Seq<int>, i: int, j: 
         None => {}
     }
 }
+
 } // verus!
 fn main() {}
